@@ -1,0 +1,38 @@
+//go:build verif
+
+package build
+
+import (
+	"go/ast"
+	"go/token"
+
+	"github.com/gopherjs/gopherjs/compiler/incjs"
+)
+
+// VerifAugment merges already parsed overlay and original files exactly as
+// parseAndAugment does after parsing (verification hook, build tag "verif").
+// Both slices are modified in place; the result is overlay followed by original.
+func VerifAugment(importPath string, overlayFiles, originalFiles []*ast.File) []*ast.File {
+	overrides := make(map[string]overrideInfo)
+	for _, file := range overlayFiles {
+		augmentOverlayFile(file, overrides)
+	}
+	delete(overrides, "init")
+
+	for _, file := range originalFiles {
+		augmentOriginalImports(importPath, file)
+	}
+
+	if len(overrides) > 0 {
+		for _, file := range originalFiles {
+			augmentOriginalFile(file, overrides)
+		}
+	}
+
+	return append(overlayFiles, originalFiles...)
+}
+
+// VerifParseAndAugment exposes parseAndAugment (verification hook).
+func VerifParseAndAugment(xctx XContext, pkg *PackageData, isTest bool, fileSet *token.FileSet) ([]*ast.File, []incjs.File, error) {
+	return parseAndAugment(xctx, pkg, isTest, fileSet)
+}
